@@ -398,7 +398,14 @@ func (s unicodeString) toTrimmedUTF8() string {
 }
 
 func (s unicodeString) ToNumber() Value {
-	return asciiString(s.toTrimmedUTF8()).ToNumber()
+	t := s.toTrimmedUTF8()
+	for i := 0; i < len(t); i++ {
+		if t[i] >= utf8.RuneSelf {
+			// every character of a StringNumericLiteral is ASCII once the white space is trimmed
+			return _NaN
+		}
+	}
+	return asciiString(t).ToNumber()
 }
 
 func (s unicodeString) ToObject(r *Runtime) *Object {
